@@ -25,6 +25,7 @@ namespace schedx {
 int  Spawn(const std::function<void()> & body);       // starts a harness thread, returns its scheduler id
 void Join(int tid);                                   // blocks (in the model) until that thread has finished
 void Yield(const char * tag = "");                    // explicit scheduling point
+void Idle(const char * tag = "");                     // the caller is "busy elsewhere for a long time": it is not scheduled again until every other thread is blocked or finished (costs no preemption)
 void WatchAtomic(const volatile void * addr);         // make atomic ops on this counter scheduling points (default: atomics are not points)
 void WatchAllAtomics(bool on);
 void IgnoreMutex(const void * mutex);                 // operations on this mutex are not points (e.g. a harness-private log lock)
